@@ -45,7 +45,10 @@ type dialer struct {
 }
 
 func (d *dialer) Dial() (_ transport.Pipe, err error) {
-	conn, err := d.d.Dial("tcp", d.addr)
+	d.lock.Lock()
+	nd := d.d
+	d.lock.Unlock()
+	conn, err := nd.Dial("tcp", d.addr)
 	if err != nil {
 		return nil, err
 	}
@@ -135,7 +138,10 @@ type listener struct {
 
 func (l *listener) Accept() (transport.Pipe, error) {
 
-	if l.l == nil {
+	l.lock.Lock()
+	ln := l.l
+	l.lock.Unlock()
+	if ln == nil {
 		return nil, mangos.ErrClosed
 	}
 	return l.handshaker.Wait()
@@ -147,14 +153,18 @@ func (l *listener) Listen() (err error) {
 		return mangos.ErrClosed
 	default:
 	}
-	l.l, err = l.lc.Listen(context.Background(), "tcp", l.addr)
+	l.lock.Lock()
+	ln, err := l.lc.Listen(context.Background(), "tcp", l.addr)
 	if err != nil {
+		l.lock.Unlock()
 		return
 	}
-	l.bound = l.l.Addr()
+	l.l = ln
+	l.bound = ln.Addr()
+	l.lock.Unlock()
 	go func() {
 		for {
-			conn, err := l.l.Accept()
+			conn, err := ln.Accept()
 			if err != nil {
 				select {
 				case <-l.closeq:
@@ -179,7 +189,10 @@ func (l *listener) Listen() (err error) {
 }
 
 func (l *listener) Address() string {
-	if b := l.bound; b != nil {
+	l.lock.Lock()
+	b := l.bound
+	l.lock.Unlock()
+	if b != nil {
 		return "tcp://" + b.String()
 	}
 	return "tcp://" + l.addr
@@ -188,8 +201,11 @@ func (l *listener) Address() string {
 func (l *listener) Close() error {
 	l.once.Do(func() {
 		close(l.closeq)
-		if l.l != nil {
-			_ = l.l.Close()
+		l.lock.Lock()
+		ln := l.l
+		l.lock.Unlock()
+		if ln != nil {
+			_ = ln.Close()
 		}
 		l.handshaker.Close()
 	})
